@@ -35,6 +35,7 @@ type Params struct {
 	MaxEdits int    `json:"maxedits"`
 	NoRemote bool   `json:"noremote"` // replicas exchange only with each other (needs Peers)
 	OneEdit  bool   `json:"oneedit"`  // only single-operation edits
+	Disk     bool   `json:"disk"`     // plain-path remotes: stock git does the transport
 }
 
 func (p Params) String() string { b, _ := json.Marshal(p); return string(b) }
@@ -91,7 +92,11 @@ func (m *model) Init(dir string) error {
 }
 
 func (m *model) build(dir string) error {
-	w, err := world.Create(dir, m.names, []string{"R"}, m.p.Peers)
+	prefix := world.Scheme + "://"
+	if m.p.Disk {
+		prefix = ""
+	}
+	w, err := world.CreateWithScheme(dir, m.names, []string{"R"}, m.p.Peers, prefix)
 	if err != nil {
 		return err
 	}
